@@ -454,3 +454,134 @@ def check_C07(tier, seed):
                         "repetitions whose body can match without consuming are excluded (assumed away, counted as dropped)",
                         "reflr: syntactic nullable/first-call analysis (least fixpoint); predicates, repetition, label, action and recovery operands count as called at the current position"]
     return rep.finish()
+
+
+def go_str_lit(s):
+    return json.dumps(s, ensure_ascii=True)
+
+
+def c19_grammars(quick):
+    """(name, peg text, flags dict)"""
+    out = []
+    hdr = "{\npackage p\n}\n"
+    lr = dict(leftRec=True)
+    out.append(("f1_nullable_cycle", hdr + "T <- Z / \"\"\nZ <- R2 Z / 'q'\nR2 <- T / 'a'\n", lr))
+    out.append(("two_cycles", hdr + "S <- A 'x' / B 'y'\nA <- B 'a' / 'a'\nB <- A 'b' / S 'c' / 'b'\n", lr))
+    out.append(("three_scc", hdr + "E <- E '+' T / T\nT <- T '*' F / F\nF <- '(' E ')' / G\nG <- G 'g' / 'n'\n", lr))
+    out.append(("mutual_nullable", hdr + "A <- B? A 'x' / C\nB <- C? 'b'\nC <- A? 'c' / \"\"\n", lr))
+    out.append(("opt_shared_leaf", hdr + "S <- A B A / B\nA <- 'a' / 'b'\nB <- 'c' A / [d-e]\nU <- 'u'\n", dict(optGrammar=True)))
+    out.append(("opt_chain", hdr + "S <- A 'd'\nA <- B 'c'?\nB <- 'a' / 'b'\nC <- 'x' B\nD <- C C\n", dict(optGrammar=True)))
+    out.append(("opt_entry", hdr + "S <- A B\nA <- ('a' / 'b') { return 1, nil }\nB <- 'c' A?\nX <- 'x' A\nY <- X B\n", dict(optGrammar=True, altEntry=["A", "X"])))
+    if not quick:
+        out.append(("opt_lr", hdr + "E <- E '+' T / T\nT <- N / '(' E ')'\nN <- D D?\nD <- [0-9]\n", dict(optGrammar=True, leftRec=True)))
+        out.append(("plain_many", hdr + "S <- A B C D\nA <- 'a' B?\nB <- 'b' C?\nC <- 'c' D?\nD <- 'd' / &{ return true, nil } 'e'\n", dict()))
+        out.append(("opt_all", hdr + "S <- (A / B / C)+\nA <- 'a' 'b'\nB <- 'a' / 'c'\nC <- [x-z] / 'w'\n", dict(optGrammar=True, optParser=True, basicLatin=True)))
+    return out
+
+
+def check_C19(tier, seed):
+    rep = Report("C19", tier, seed, "model_checking")
+    w = Work()
+    w.build_pigeon()
+    quick = tier == "quick"
+    D = 1 if quick else 2
+    gs = c19_grammars(quick)
+    src = ["package main\n\n", "type c19Case struct {\n\tname, text string\n\tf symFlags\n}\n\nvar c19Cases = []c19Case{\n"]
+    for name, text, fl in gs:
+        fields = []
+        for k in ("optGrammar", "optParser", "basicLatin", "leftRec"):
+            if fl.get(k):
+                fields.append("%s: true" % k)
+        if fl.get("altEntry"):
+            fields.append("altEntry: []string{%s}" % ", ".join(go_str_lit(x) for x in fl["altEntry"]))
+        src.append("\t{%s, %s, symFlags{%s}},\n" % (go_str_lit(name), go_str_lit(text), ", ".join(fields)))
+    src.append("}\n")
+    src.append('''
+// C19: the generated output is a function of grammar text and flags only.
+// The first generation runs with every map ranged in insertion order; the
+// second one lets at most symOrderBound range instances iterate in another
+// order (engine nondeterminism, delay-bounded).
+func Harness_C19(n int) {
+	cs := c19Cases[n]
+	canon := symGenerate([]byte(cs.text), cs.f)
+	symOrderMode(symOrderBound)
+	got := symGenerate([]byte(cs.text), cs.f)
+	symOrderMode(0)
+	symNote(cs.name)
+	symAssert(canon.perr == nil && got.perr == nil, "C19: catalogue grammar rejected by the front end")
+	symAssert(canon.panicked == got.panicked, "C19: a panic depends on map iteration order")
+	symAssert((canon.berr == nil) == (got.berr == nil), "C19: acceptance depends on map iteration order")
+	symAssert(canon.out == got.out, "C19: generated output depends on map iteration order")
+	symReach("end")
+}
+''')
+    src.append("const symOrderBound = %d\n" % D)
+    ov = RepoOverlay(w, ".", "main", {"zz_verif_main.go": open(os.path.join(VERIF, "harness", "main_common.go")).read(),
+                                      "zz_verif_c19.go": "".join(src)}, ["Harness_C19"])
+    agg = {"jobs": 0, "paths": 0, "completed": 0, "decisions": 0, "queries": 0, "solver_s": 0.0, "asserts": 0, "discharged": 0,
+           "dropped": 0, "steps": 0, "cex": 0, "validated": 0, "validated_ok": 0, "engine_wall_s": 0.0, "externals": []}
+    res = ov.engine(harness="Harness_C19$", nmin=0, nmax=len(gs) - 1, timeout_s=240 if quick else 3000, sample_every=40, max_steps=20_000_000)
+    if res.get("errors"):
+        rep.inconclusive.append("engine: " + "; ".join(res["errors"])[:800])
+    agg["engine_wall_s"] = res.get("wall_s", 0)
+    agg["externals"] = res.get("externals") or []
+    for j in res.get("jobs") or []:
+        name, text, fl = gs[j["arg"]]
+        agg["jobs"] += 1
+        for a, b in (("paths", "paths"), ("completed", "completed"), ("decisions", "decisions"), ("queries", "queries"),
+                     ("assertions_checked", "asserts"), ("assertions_discharged", "discharged"), ("ssa_steps", "steps")):
+            agg[b] += j.get(a, 0)
+        for m in j.get("inconclusive") or []:
+            rep.inconclusive.append("%s: %s" % (name, m))
+        if (j.get("reached") or {}).get("end", 0) == 0:
+            rep.inconclusive.append("%s: vacuous (no path reached the end marker)" % name)
+        for s in (j.get("samples") or [])[:2]:
+            rep.samples.append({"grammar": name, "flags": fl, "range_order_choices": s["model"], "path_notes": s.get("notes")})
+        cexs = j.get("counterexamples") or []
+        agg["cex"] += len(cexs)
+        if cexs:
+            # native confirmation: run the real tool repeatedly and look for two different outputs
+            flags = []
+            if fl.get("optGrammar"): flags.append("-optimize-grammar")
+            if fl.get("optParser"): flags.append("-optimize-parser")
+            if fl.get("basicLatin"): flags.append("-optimize-basic-latin")
+            if fl.get("leftRec"): flags.append("-support-left-recursion")
+            if fl.get("altEntry"): flags += ["-alternate-entrypoints", ",".join(fl["altEntry"])]
+            d = os.path.join(w.dir, "c19_" + name)
+            os.makedirs(d, exist_ok=True)
+            with open(os.path.join(d, "g.peg"), "w") as f:
+                f.write(text)
+            outs = {}
+            runs = 300
+            for k in range(runs):
+                r = subprocess.run([w.pigeon] + flags + ["g.peg"], cwd=d, env=base_env(), capture_output=True)
+                key = (r.returncode, r.stdout)
+                outs[key] = outs.get(key, 0) + 1
+                if len(outs) > 1 and k > 20:
+                    break
+            doc = {"property": "C19", "case": name, "peg": text, "flags": flags, "msg": cexs[0]["msg"], "model": cexs[0]["model"],
+                   "native_distinct_outputs": len(outs), "native_runs": sum(outs.values()), "tags": [], "input": []}
+            if len(outs) > 1:
+                k = match_known("C19", doc)
+                if k is not None:
+                    short = "%s %s" % (k["id"], k["what"])
+                    if short not in rep.known:
+                        rep.known.append(short)
+                else:
+                    path = save_replay("C19", doc)
+                    rep.violation(path, "%s %s: %d distinct outputs in %d runs of the real tool; engine: %s with range orders %s" % (
+                        name, " ".join(flags), len(outs), sum(outs.values()), cexs[0]["msg"], cexs[0]["model"]))
+            else:
+                rep.unconfirmed.append("%s: engine found an order-dependent output (%s, orders %s) but %d native runs of the tool gave one output" % (
+                    name, cexs[0]["msg"], cexs[0]["model"], runs))
+    # cross-validation: the engine's canonical output must be what the native pipeline produces (checked through C20/selftest)
+    std_cov(rep, agg, gs, {"range_instances_deviating_per_path": D, "grammars": len(gs),
+                           "permutations": "all orders for maps with <= 3 keys; reversal, rotation and adjacent transpositions above"},
+            "one state = one assignment of iteration orders to the dynamic map-range instances of one generation run (at most D deviate from insertion order)",
+            ["main: Parse (generated front end) on the concrete grammar text", "ast.Optimize", "builder.BuildParser: PrepareGrammar, ComputeNullables, ComputeLeftRecursives, MakeFirstGraph, StronglyConnectedComponents, findLeader, FindCyclesInSCC, writeGrammar, writeRuleCode"])
+    rep.cov["solver_role"] = "none for the deciding step: map orders are engine nondeterminism under a delay bound (the thinnest use of the technique in the set, labelled as a reduced claim)"
+    rep.cov["traces_validated_against_impl"] = 0
+    rep.assumptions += ["text/template expansion of the static code and goimports are not interpreted: assumed independent of map order",
+                        "at most D range instances per run deviate from insertion order; the product of all orders is not explored",
+                        "confirmation of a counterexample = two different outputs among up to 300 native runs of the real tool"]
+    return rep.finish()
